@@ -138,3 +138,98 @@ where
     let _ = Evaluations::<SF, SF>::new();
     Verdict::Hold
 }
+
+/// kzg10::Powers (the committer key handed to KZG10::commit/open), as produced by Marlin and Sonic keys in the
+/// shapes trim can produce - hiding bound below, equal to and above the supported degree; plain and shifted -
+/// round-trips, and committing with the deserialized powers gives the same commitment.
+pub fn kzg_powers(seed: u64) -> Verdict {
+    use crate::engine::grp::ToyPairing;
+    use crate::schemes::{MarlinPC, SonicPC, UP};
+    use ark_poly::DenseUVPolynomial;
+    use ark_poly_commit::kzg10::{Powers, KZG10};
+    use ark_ff::UniformRand;
+    let rng = &mut StdRng::seed_from_u64(seed + 41);
+    let ppm = MarlinPC::setup(8, None, rng).unwrap();
+    let pps = SonicPC::setup(8, None, rng).unwrap();
+    SER_QUIET.with(|c| c.set(true));
+    let r = (|| -> Result<(), Verdict> {
+        for (sup, hid, bounds) in [(3usize, 1usize, Some(vec![2usize, 3])), (2, 2, None), (2, 4, Some(vec![1usize])), (1, 6, None), (8, 0, Some(vec![8usize]))] {
+            let (mck, _) = MarlinPC::trim(&ppm, sup, hid, bounds.as_deref()).map_err(|e| Verdict::viol("trim-err", format!("{:?}", e)))?;
+            let (sck, _) = SonicPC::trim(&pps, sup, hid, bounds.as_deref()).map_err(|e| Verdict::viol("trim-err", format!("{:?}", e)))?;
+            let mut list: Vec<(String, Powers<ToyPairing>)> = vec![(format!("marlin powers (supported {}, hiding {})", sup, hid), mck.powers()), (format!("sonic powers (supported {}, hiding {})", sup, hid), sck.powers())];
+            for b in bounds.clone().unwrap_or_default() {
+                if let Some(p) = mck.shifted_powers(b) {
+                    list.push((format!("marlin shifted powers for bound {} (supported {}, hiding {})", b, sup, hid), p));
+                }
+                if let Some(p) = sck.shifted_powers(b) {
+                    list.push((format!("sonic shifted powers for bound {} (supported {}, hiding {})", b, sup, hid), p));
+                }
+            }
+            for (what, p) in list {
+                let back = roundtrip(&p, &what, true)?;
+                let poly = UP::from_coefficients_vec(vec![SF::rand(rng)]);
+                let orig = KZG10::<ToyPairing, UP>::commit(&p, &poly, None, None).map(|x| x.0);
+                for q in back {
+                    let again = KZG10::<ToyPairing, UP>::commit(&q, &poly, None, None).map(|x| x.0);
+                    if orig.as_ref().ok() != again.as_ref().ok() {
+                        return Err(Verdict::viol("decision-differs-after-roundtrip", format!("{}: committing with the deserialized powers gives another result", what)));
+                    }
+                }
+            }
+        }
+        Ok(())
+    })();
+    SER_QUIET.with(|c| c.set(false));
+    match r {
+        Ok(()) => Verdict::Hold,
+        Err(v) => v,
+    }
+}
+
+/// multilinear_pc: parameters, keys, commitment and proof round-trip; the decision with deserialized
+/// artefacts equals the original on the honest and on a tampered claim
+pub fn mlpst_artefacts(nv: usize, seed: u64) -> Verdict {
+    use crate::engine::grp::ToyPairing;
+    use ark_ff::UniformRand;
+    use ark_poly::{DenseMultilinearExtension, MultilinearExtension, Polynomial};
+    use ark_poly_commit::multilinear_pc::MultilinearPC;
+    let rng = &mut StdRng::seed_from_u64(seed + 43);
+    let pp = MultilinearPC::<ToyPairing>::setup(nv, rng);
+    let (ck, vk) = MultilinearPC::<ToyPairing>::trim(&pp, nv);
+    let p = DenseMultilinearExtension::from_evaluations_vec(nv, (0..1 << nv).map(|_| SF::rand(rng)).collect());
+    let pt: Vec<SF> = (0..nv).map(|_| SF::rand(rng)).collect();
+    let com = MultilinearPC::commit(&ck, &p);
+    let proof = MultilinearPC::open(&ck, &p, &pt);
+    let v = p.evaluate(&pt);
+    SER_QUIET.with(|c| c.set(true));
+    let r = (|| -> Result<(), Verdict> {
+        roundtrip(&pp, "multilinear universal parameters", true)?;
+        let ck2 = roundtrip(&ck, "multilinear committer key", true)?;
+        let vk2 = roundtrip(&vk, "multilinear verifier key", true)?;
+        let com2 = roundtrip(&com, "multilinear commitment", true)?;
+        let proof2 = roundtrip(&proof, "multilinear proof", true)?;
+        for m in 0..vk2.len() {
+            for (val, tag) in [(v, "honest"), (v + SF::one(), "tampered")] {
+                let a = MultilinearPC::check(&vk, &com, &pt, val, &proof);
+                let b = MultilinearPC::check(&vk2[m], &com2[m], &pt, val, &proof2[m]);
+                if a != b {
+                    return Err(Verdict::viol("decision-differs-after-roundtrip", format!("multilinear check on the {} claim: original {}, deserialized (mode {}) {}", tag, a, m, b)));
+                }
+            }
+            let c3 = MultilinearPC::commit(&ck2[m], &p);
+            let mut x = vec![];
+            let mut y = vec![];
+            let _ = c3.serialize_compressed(&mut x);
+            let _ = com.serialize_compressed(&mut y);
+            if x != y {
+                return Err(Verdict::viol("decision-differs-after-roundtrip", "committing with the deserialized multilinear key gives another commitment"));
+            }
+        }
+        Ok(())
+    })();
+    SER_QUIET.with(|c| c.set(false));
+    match r {
+        Ok(()) => Verdict::Hold,
+        Err(v) => v,
+    }
+}
